@@ -2,7 +2,7 @@
 //
 //	header:  <BST|AVL|RB> <asc|desc|diff|rdiff|diff3|half>
 //	mutators: P k v -> -      D k -> v|none      Dm / DM -> k:v|none      DA -> -
-//	queries:  Sz E H G k  Mn Mx  F k  C k  Sel i  R k  Rg lo hi  RS lo hi  All  T o  TS o j
+//	queries:  Sz E H G k  Mn Mx  F k  C k  Sel i  R k  Rg lo hi  RS lo hi  All  T o  TS o j  AS j   (TS/AS -> list;calls=<visitor calls>)
 //	          Any p  Allm p  Fm p  Sm p  Pm p  Eq <hist>  EqO <impl>
 //	          K -> h=<Height()>;vlr=<Traverse VLR>;lvr=<Traverse LVR>;dump=<hook: pre-order nodes k:v:size:height:colour:LR>
 //	lists are k:v,k:v,... ([] when empty); p is a predicate id (see pred); hist is P2:20,D4,Dm,DM,DA
@@ -246,10 +246,11 @@ func exec(t table, impl, cmp, op string) (res string) {
 		return listOf(t)
 	case "T":
 		return trav(t, a(1))
-	case "TS":
+	case "TS": // public Traverse with a visitor that accepts j pairs and then returns false
 		var l lst
-		j := a(2)
+		j, calls := a(2), 0
 		t.Traverse(generic.TraverseOrder(a(1)), func(k, v int) bool {
+			calls++
 			if j == 0 {
 				return false
 			}
@@ -257,7 +258,20 @@ func exec(t table, impl, cmp, op string) (res string) {
 			l.add(k, v)
 			return true
 		})
-		return l.String()
+		return l.String() + ";calls=" + strconv.Itoa(calls)
+	case "AS": // All() driven by hand: the yield function accepts j pairs and then returns false
+		var l lst
+		j, calls := a(1), 0
+		t.All()(func(k, v int) bool {
+			calls++
+			if j == 0 {
+				return false
+			}
+			j--
+			l.add(k, v)
+			return true
+		})
+		return l.String() + ";calls=" + strconv.Itoa(calls)
 	case "Any":
 		return b(t.AnyMatch(pred(a(1))))
 	case "Allm":
@@ -390,10 +404,14 @@ func fullBattery(keys []int, probes []int, sz int, sib string) []string {
 	for o := 0; o <= 8; o++ {
 		ops = append(ops, fmt.Sprintf("T %d", o))
 	}
-	for _, o := range []int{0, 2, 5, 7} {
-		for j := 0; j <= 2; j++ {
+	// early exit through the public API: every order, visitors stopping after 0..n+1 pairs
+	for o := 0; o <= 8; o++ {
+		for j := 0; j <= sz+1; j++ {
 			ops = append(ops, fmt.Sprintf("TS %d %d", o, j))
 		}
+	}
+	for j := 0; j <= sz+1; j++ {
+		ops = append(ops, fmt.Sprintf("AS %d", j))
 	}
 	for p := 0; p < nPreds; p++ {
 		ops = append(ops, fmt.Sprintf("Any %d", p), fmt.Sprintf("Allm %d", p), fmt.Sprintf("Fm %d", p),
@@ -569,7 +587,10 @@ func randomQuery(r *rng.R, u int, muts []string) string {
 	case 13:
 		return fmt.Sprintf("T %d", r.Intn(9))
 	case 14:
-		return fmt.Sprintf("TS %d %d", r.Intn(8), r.Intn(6))
+		if r.Chance(1, 4) {
+			return fmt.Sprintf("AS %d", r.Intn(u+2))
+		}
+		return fmt.Sprintf("TS %d %d", r.Intn(9), r.Intn(u+2))
 	case 15:
 		return fmt.Sprintf("Any %d", r.Intn(nPreds))
 	case 16:
